@@ -1,30 +1,205 @@
 package main
 
-func init() {
-	register(&PropCheck{
-		ID:          "C03",
-		Explanation: "debug",
-		Trusted:     commonTrusted,
-		Run: func(c *Ctx) {
-			obs := diskFlowObligs(c)
-			c.R.Rule("R03a", "E2", "reservation pairing", 1)
-			c.R.Rule("R04a", "E2", "tempfile pairing", 1)
-			c.R.Rule("R01a", "E2", "verify->commit->ack", 1)
-			lockRules(c)
-			takeRules(c, obs, "R03a", "R04a", "R01a", "R01c", "R17f", "R17g", "R12a", "R12c", "R12d", "R12e", "R18a", "R18d")
-		},
-	})
-}
+// The registry: which rules decide which property, what they decide and what
+// they leave undecided.  A rule is emitted by a generator (a function over the
+// loaded program); a property owns a list of rules and the framework runs the
+// generators that can emit them and keeps the owned rules only.
 
 var requestPkgs = []string{"/server", "/cache/disk", "/cache/disk/casblob", "/utils/validate", "/cache/grpcproxy", "/cache/httpproxy", "/cache/s3proxy", "/cache/azblobproxy", "/cache"}
 
-func init() {
+type generator struct {
+	name  string
+	rules []string
+	run   func(c *Ctx, want map[string]bool)
+}
+
+var diskflowRules = []string{"R03a", "R04a", "R01a", "R01c", "R17f", "R17g", "R12a", "R12c", "R12d", "R12e", "R18a", "R18d"}
+
+var diskflowDocs = map[string]string{
+	"R03a": "reservation pairing in Put / get / availableOrTryProxy (commit inlined): Reserve is called with no reservation held; every exit is reached with the reservation released exactly once with the reserved amount (deferred clean-up included); availableOrTryProxy hands a held reservation to its caller only together with tryProxy == true; commit releases the reservation and adds the entry under one lock",
+	"R04a": "temp-file pairing: a file created by tempfile.Create is, on every exit, either indexed by commit or removed; the deferred clean-up never removes a committed file; no second file is created while one is pending",
+	"R01a": "verify -> commit -> acknowledge: commit (index insertion) is dominated by writeAndCloseFile returning nil for the file created for this very upload; a nil error / reader is returned only with the entry committed",
+	"R01c": "verifier selection: writeAndCloseFile receives Put's own reader, kind, hash and size, and inside it every success return for a CAS blob passed the digest-verifying writer built from those parameters",
+	"R17f": "admission before creation: every tempfile.Create is dominated by a successful Reserve for the item (or the item is empty)",
+	"R17g": "reads are not subject to admission: a local hit is returned without calling Reserve",
+	"R12a": "proxy.Get / proxy.Contains are dominated by c.proxy != nil",
+	"R12c": "write-through once and only verified data: proxy.Put is reached at most once per upload and only after writeAndCloseFile succeeded",
+	"R12d": "a backend answer is used only when 0 <= foundSize <= maxProxyBlobSize and it does not mismatch the requested size",
+	"R12e": "a proxied entry is handed to the client only after its bytes were validated by writeAndCloseFile and the entry was committed",
+	"R18a": "Put rejects size > maxBlobSize before reserving anything",
+	"R18d": "proxy limits: every proxy.Get / proxy.Contains / queued backend check in cache/disk is dominated by requested size <= maxProxyBlobSize, and a positive answer that uses a backend-reported size is dominated by foundSize <= maxProxyBlobSize",
+}
+
+var diskflowMins = map[string]int{"R03a": 30, "R04a": 25, "R01a": 8, "R01c": 1, "R17f": 2, "R17g": 4, "R12a": 1, "R12c": 2, "R12d": 3, "R12e": 2, "R18a": 1, "R18d": 1}
+
+func allCloserEntries() []closerEntry {
+	return append(append(append([]closerEntry{}, diskCloserEntries...), proxyCloserEntries...), serverCloserEntries...)
+}
+
+func wantAny(want map[string]bool, rules ...string) map[string]bool {
+	m := map[string]bool{}
+	for _, r := range rules {
+		if want[r] {
+			m[r] = true
+		}
+	}
+	return m
+}
+
+var generators = []generator{
+	{"diskflow", diskflowRules, func(c *Ctx, want map[string]bool) {
+		obs := diskFlowObligs(c)
+		var take []string
+		for _, r := range diskflowRules {
+			if want[r] {
+				c.R.Rule(r, "E2 path-sensitive dataflow", diskflowDocs[r], diskflowMins[r])
+				take = append(take, r)
+			}
+		}
+		takeRules(c, obs, take...)
+	}},
+	{"lock", []string{"R07a", "R07b"}, func(c *Ctx, _ map[string]bool) { lockRules(c) }},
+	{"guards", []string{"R14a", "R14b", "R14c"}, func(c *Ctx, _ map[string]bool) { guardFacts(c, requestPkgs, true, true, true) }},
+	{"closers-all", []string{"R14d"}, func(c *Ctx, _ map[string]bool) {
+		runCloserRules(c, "R14d", allCloserEntries(), 55, "closers are closed, returned or handed to an owner on every path: every file, response body, backend stream, pipe end and reader obtained in a request path of package server, cache/disk, casblob and the proxy back ends is, on every exit of the function that obtained it, closed (possibly deferred), returned to the caller or handed to a callee that owns it (policies of the owning callees are themselves checked); an interface value that may be nil is not called")
+	}},
+	{"closers-proxy", []string{"R12b"}, func(c *Ctx, _ map[string]bool) {
+		ents := append(append([]closerEntry{}, diskCloserEntries...), proxyCloserEntries...)
+		runCloserRules(c, "R12b", ents, 35, "backend streams and files on proxy paths are released on every exit: the reader a backend returned, the HTTP response body, the file a backend stream is written to and the reader handed to a backend upload are closed, returned or handed to an owner on every path, including every error path; a nil reader is never called")
+	}},
+	{"c13", []string{"R13a", "R13b", "R13c", "R13d", "R13e", "R13f", "R13g"}, func(c *Ctx, _ map[string]bool) {
+		c13Inventory(c)
+		c13Interceptors(c)
+		c13GrpcInstall(c)
+		c13HTTPStacks(c)
+		c13HTTPSplit(c)
+	}},
+	{"lru-writers", []string{"R03b", "R05a"}, func(c *Ctx, _ map[string]bool) { lruWriters(c) }},
+	{"lru-accounting", []string{"R03c", "R03d", "R03e", "R04b", "R05b", "R05d", "R17a", "R17b"}, func(c *Ctx, _ map[string]bool) { lruAccounting(c) }},
+	{"lru-misc", []string{"R05a", "R03f", "R04c", "R17c", "R17e", "R01b", "R05e"}, func(c *Ctx, want map[string]bool) {
+		lruMisc(c, wantAny(want, "R05a", "R03f", "R04c", "R17c", "R17e", "R01b", "R05e"))
+	}},
+	{"stale-handles", []string{"R03e"}, func(c *Ctx, _ map[string]bool) { staleHandles(c) }},
+	{"casblob-write", []string{"R01c", "R08b", "R01d", "R01e", "R08a"}, func(c *Ctx, _ map[string]bool) {
+		writeFileRules(c)
+		writeAndCloseRules(c)
+	}},
+	{"casblob-header", []string{"R08d"}, func(c *Ctx, _ map[string]bool) { readHeaderRules(c) }},
+	{"casblob-format", []string{"R20a", "R20b", "R02d", "R20c"}, func(c *Ctx, want map[string]bool) {
+		formatRules(c, wantAny(want, "R20a", "R20b", "R02d", "R20c"))
+	}},
+	{"ingress", []string{"R01f"}, func(c *Ctx, _ map[string]bool) { digestPairs(c) }},
+	{"ok-after-store", []string{"R01h"}, func(c *Ctx, _ map[string]bool) { okAfterStore(c) }},
+	{"ac", []string{"R11a", "R11b", "R11d", "R11e"}, func(c *Ctx, _ map[string]bool) { acRules(c) }},
+	{"config", []string{"R19a", "R19b", "R19c", "R19d", "R19e", "R19f", "R19g"}, func(c *Ctx, _ map[string]bool) { configRules(c) }},
+	{"multi-exec", []string{"R07e"}, func(c *Ctx, _ map[string]bool) { multiExecutorWrites(c) }},
+	{"workers", []string{"R07f"}, func(c *Ctx, _ map[string]bool) { workerWrites(c) }},
+	{"pipes", []string{"R14e"}, func(c *Ctx, _ map[string]bool) { pipeRules(c) }},
+	{"channels", []string{"R14f"}, func(c *Ctx, _ map[string]bool) { channelCapacity(c) }},
+	{"no-fatal", []string{"R14g"}, func(c *Ctx, _ map[string]bool) { noFatalOnRequestPaths(c) }},
+	{"names", []string{"R04e", "R20d", "R15a", "R09c", "R09b", "R09e", "R09f"}, func(c *Ctx, want map[string]bool) {
+		nameRules(c, wantAny(want, "R04e", "R20d", "R15a", "R09c", "R09b", "R09e", "R09f"))
+	}},
+	{"paths", []string{"R04d"}, func(c *Ctx, _ map[string]bool) { pathProvenance(c) }},
+	{"backend-names", []string{"R12g"}, func(c *Ctx, _ map[string]bool) { backendNames(c) }},
+	{"reads", []string{"R02a", "R02b", "R02c"}, func(c *Ctx, _ map[string]bool) { readRules(c) }},
+	{"deps", []string{"R06a", "R06b", "R06c", "R06e"}, func(c *Ctx, _ map[string]bool) { depRules(c) }},
+	{"findmissing", []string{"R10a", "R10b", "R10c", "R10d", "R10g"}, func(c *Ctx, _ map[string]bool) { findMissingRules(c) }},
+	{"keyspaces", []string{"R15b", "R15c", "R15d", "R15e"}, func(c *Ctx, _ map[string]bool) { keyspaceRules(c) }},
+	{"write-protocol", []string{"R16a", "R16b", "R16c", "R16d"}, func(c *Ctx, _ map[string]bool) { writeProtocolRules(c) }},
+	{"size-limits", []string{"R18b", "R18c", "R18d"}, func(c *Ctx, _ map[string]bool) { sizeLimitRules(c) }},
+}
+
+// runOwned runs the generators that can emit one of the property's rules.
+func runOwned(c *Ctx, rules []string) {
+	want := map[string]bool{}
+	for _, r := range rules {
+		want[r] = true
+	}
+	for _, g := range generators {
+		hit := false
+		for _, r := range g.rules {
+			if want[r] {
+				hit = true
+			}
+		}
+		if hit {
+			c.R.Count("generators run"+c.Cfg, 1)
+			g.run(c, want)
+		}
+	}
+}
+
+func prop(id string, rules []string, explanation, notDecided string, extraTrust ...string) {
+	rs := rules
 	register(&PropCheck{
-		ID:          "C14",
-		Explanation: "debug",
-		Trusted:     commonTrusted,
-		Run: func(c *Ctx) {
-			guardFacts(c, requestPkgs, true, true, true)
-		},
+		ID: id, Rules: rs, Explanation: explanation, NotDecided: notDecided,
+		Trusted: append(append([]string{}, commonTrusted...), extraTrust...),
+		Run:     func(c *Ctx) { runOwned(c, rs) },
 	})
+}
+
+const structural = "Static analysis of /repo's current type-checked source (go/packages + go/types, per-function go/cfg explored path-sensitively with bounded inlining of the module's own callees). Decided are structural necessary conditions of the property - breaking any of them changes the behaviour the property describes - not the behaviour itself. "
+
+func init() {
+	prop("C01", []string{"R01a", "R01b", "R01c", "R01d", "R01e", "R01f", "R01h"},
+		structural+"Decided: (R01f) at every ingress that reaches Cache.Put the hash and the size come from one declaration or from the stored bytes themselves; (R01c/R01d/R01e) inside the disk cache every CAS byte stream goes through a writer that hashes exactly the bytes it stores, compares SHA-256 and length with the declared ones and probes for trailing bytes before its only success return; (R01a/R01b) the index insertion is dominated by that success and nothing else inserts; (R01h) every OK / nil / 200 acknowledgement in package server is dominated by Put having returned nil for that blob.",
+		"Not decided: that SHA-256 / zstd libraries compute what they claim; that a well-formed upload within limits is accepted (liveness); that an acknowledged blob stays readable until evicted (C05/C07 clauses); the content of decompressed data (decoder correctness).")
+	prop("C02", []string{"R02a", "R02b", "R02c", "R02d"},
+		structural+"Decided: (R02a) the read_limit budget test dominates every Send in ByteStream.Read and the budget is decreased by what is sent; (R02b) the empty blob is answered before any index lookup on every read / existence path; (R02c) a zstd label (Compressor_ZSTD, Content-Encoding: zstd) is produced exactly on paths whose bytes come from GetZstd; (R02d) the casblob readers take chunk size and chunk positions from the parsed header only, never from the writer's default.",
+		"Not decided: byte-for-byte equality of delivered and stored content, offset arithmetic inside the zstd decoders, equivalence of the cgo and pure-Go zstd implementations: these quantify over data values, which no static argument in reach bounds.")
+	prop("C03", []string{"R03a", "R03b", "R03c", "R03d", "R03e", "R03f"},
+		structural+"Decided: (R03b) the three counters and the index are written only by Add / removeElement / Reserve / Unreserve; (R03c) each of those changes the counters by exactly the 4 KiB-rounded size of the entry that enters or leaves, or the reserved amount, on every exit (linear-form analysis), failing exits change nothing; (R03d) the eviction loops run exactly until currentSize + delta <= maxSize for the delta added next; (R03a) every Reserve in the disk cache is paired with exactly one Unreserve of the same amount on every path including deferred clean-up; (R03e) removeElement re-validates stale list handles; (R03f) /status reports those counters.",
+		"Not decided: the arithmetic invariant as a statement about runtime values across interleavings (that is induction over histories; the rules give its inductive step per mutator and the pairing per request path); overflow of int64 sums.")
+	prop("C04", []string{"R04a", "R04b", "R04c", "R04d", "R04e"},
+		structural+"Decided: (R04a) every temp file created in Put / get is indexed or removed on every exit; (R04b) every removal from the index queues the removed entry's file for deletion, an overwrite queues the old value; (R04c) the background remover deletes exactly the queued entry's path; (R04d) every os.Remove / Open in cache/disk works on a path derived from FileLocation / getElementPath or a created temp file; (R04e) the name a file is created under, the name computed for lookups and the start-up loader's grammar agree for every (kind, legacy) combination.",
+		"Not decided: file-system behaviour (rename/remove atomicity), that the directory is otherwise untouched, timing of the background remover (quiescence is a runtime notion).")
+	prop("C05", []string{"R05a", "R05b", "R05d", "R05e", "R03d"},
+		structural+"Decided: (R05a) every index hit moves the element to the front before it is returned and Add pushes to the front, the map is touched by SizedLRU methods only; (R05b) victims come from the back of the list; (R03d) the eviction loop guard is the exact negation of the fit condition for the incoming delta (no eviction without pressure, minimal eviction); (R05d) an item that cannot fit is rejected before any eviction; (R05e) Put reserves the logical size and commit adds size = logical size, sizeOnDisk = bytes written.",
+		"Not decided: the LRU order as a property of histories (the rules fix the per-operation list discipline from which it follows by induction); 'present immediately afterwards' under concurrency.")
+	prop("C06", []string{"R06a", "R06b", "R06c", "R06e"},
+		structural+"Decided: (R06a) every Digest-typed field reachable from ActionResult through OutputFile, OutputDirectory -> Tree -> Directory -> FileNode (enumerated from the generated protobuf types) flows into the presence check or is fetched; (R06b) the hit return is dominated by that check returning nil and a missing blob maps to a miss; (R06c) a nil result maps to NotFound / 404 with no 200 body before; (R06e) with dependency checking on, AC content reaches clients only through GetValidatedActionResult.",
+		"Not decided: 'at that moment' (atomicity of the check with respect to concurrent eviction), the backend's truthfulness.")
+	prop("C07", []string{"R07a", "R07b", "R07e", "R07f", "R03e", "R01a", "R12e"},
+		structural+"Decided: (R07a) lockset: every access to the LRU index is made with c.mu held, Lock/Unlock balanced on every path, no double lock; (R07b) no blocking operation (file system, backend, semaphore, channel send, re-locking callee) while c.mu is held - the static deadlock argument; (R07e/R07f) closures run by several goroutines write shared variables only through atomics / disjoint slice elements that are awaited; (R03e) stale handles are re-validated; (R01a/R12e) an entry becomes visible in the index only after its file is complete, verified, synced and closed (whole values).",
+		"Not decided: linearizability of histories, data-race freedom in general (only the enumerated sharing patterns), that a streaming read survives eviction (relies on POSIX unlink semantics).")
+	prop("C08", []string{"R08a", "R08b", "R08d", "R01a"},
+		structural+"Decided: (R08a) WriteAndClose writes the chunk table only after all chunks, the trailing probe and the hash comparison, then f.Sync() and f.Close() are error-checked before success; the header written first cannot validate without the table; (R08b) raw files are synced and closed with checked errors before success; (R08d) readHeader rejects every torn or inconsistent table (magic, count, frame size, chunk size, monotone offsets, last offset == file size) and both readers start with it; (R01a) the final name is given (index + rename in commit) only after writeAndCloseFile returned nil.",
+		"Not decided: crash behaviour of the file system itself (ordering of rename vs. data blocks beyond fsync of the file; the directory is not fsynced), start-up success on arbitrary torn directories (C09).")
+	prop("C09", []string{"R09b", "R09c", "R09e", "R09f", "R04e", "R15a"},
+		structural+"Decided: (R04e/R15a) every name the writer can produce is accepted by the loader's grammar with the capture groups landing on the fields scanDir assigns, and the kind/prefix tables invert; (R09c) migration of the legacy layouts produces loadable names in the right directory with .v1 exactly for CAS; (R09b) scanned files are ordered by ascending access time and inserted oldest first; (R09e) only lost+found and .DS_Store are tolerated; (R09f) start-up returns only once the eviction backlog drained.",
+		"Not decided: behaviour on every possible directory content (that quantifies over file-system states), content preservation of migrated files, atime semantics of the platform.")
+	prop("C10", []string{"R10a", "R10b", "R10c", "R10d", "R10g", "R07f", "R02b"},
+		structural+"Decided: (R10a) a digest is marked found only on a sized local hit, the empty-digest test or a positive backend answer; (R10b) oversize digests are never asked of the backend; (R10c) the batching loop consumes the whole list with consistent bounds; (R10d) compaction is a single forward, order-preserving copy of the non-nil elements; (R10g) the response is the filtered request slice, every digest validated first; (R07f) each worker writes its own slice element and all are awaited before the result is read; (R02b) the empty blob is never missing.",
+		"Not decided: 'present throughout the call' under concurrent eviction, backend truthfulness.")
+	prop("C11", []string{"R11a", "R11b", "R11d", "R11e"},
+		structural+"Decided: (R11a) every Cache.Put that can carry an action-cache entry is dominated by validate.ActionResult(ar) == nil and stores the marshalling of that same message; (R11b) every return of AC content is dominated by validation of the unmarshalled stored bytes; (R11d) no error return is reachable after the AC Put succeeded; (R11e) between validation and marshalling only the worker metadata is filled in.",
+		"Not decided: equality of the returned and the uploaded message (data values), that the validator accepts exactly the well-formed messages, JSON/protobuf view agreement, last-writer-wins.")
+	prop("C12", []string{"R12a", "R12b", "R12c", "R12d", "R12e", "R12g", "R18d"},
+		structural+"Decided: (R12a) the backend is consulted only when configured; (R12d/R18d) a backend answer is used only with 0 <= size <= max_proxy_blob_size and no size mismatch; (R12e) proxied bytes are verified by the same digest-checking writer as uploads and committed before they are served - a short or corrupt stream cannot be committed; (R12c) write-through happens once, after verification; (R12b) backend streams, response bodies, files and pipe ends on proxy paths are released on every exit and a nil reader is never called; (R03a/R04a in C14) reservations and temp files do not leak; (R12g) backend object names are the published templates, identical across S3 / Azure and accepted by this server's own grammar.",
+		"Not decided: that the content a backend delivers equals what was uploaded (data values), goroutine lifetimes inside third-party clients, the 'full upload queue' drop policy beyond the select/default shape.")
+	prop("C13", []string{"R13a", "R13b", "R13c", "R13d", "R13e", "R13f", "R13g"},
+		structural+"Decided: (R13a/b/c) the inventory of registered gRPC methods is read from the service descriptors, each is classified mutating iff its handler reaches Cache.Put, and the unauthenticated-read allow-list contains only registered, non-mutating methods; (R13d) in each auth interceptor every path to the handler is the health check, an allowed read, or a passed credential check; (R13e/R13f) for every valuation of the configuration the gRPC server and every HTTP route (/, /status, /metrics) is wrapped by the interceptor / handler that valuation requires; (R13g) the unauthenticated wrapper forwards only GET and HEAD and every Put in the HTTP handler is behind the PUT method and the write-certificate check.",
+		"Not decided: the cryptographic verification itself (crypto/tls, go-http-auth, LDAP library), TLS handshake configuration beyond ClientAuth, password file parsing.")
+	prop("C14", []string{"R14a", "R14b", "R14c", "R14d", "R14e", "R14f", "R14g", "R03a", "R04a"},
+		structural+"Decided: (R14a) every field selection through a nilable protobuf message pointer in request code is dominated by a non-nil fact; (R14b) every division by a non-constant is dominated by a non-zero fact; (R14c) every non-induction index is dominated by a length bound; (R14g) no log.Fatal / os.Exit / panic is reachable from a handler, interceptor or cache method; (R14d) every closer obtained on a request path is closed, returned or handed over on every exit; (R14e) every pipe's read end is terminated so writers cannot block for ever; (R14f) goroutines started by a request can always finish (sends never exceed channel capacity); (R03a/R04a) reservations and temp files are released on every exit.",
+		"Not decided: panics inside third-party libraries, unbounded memory from huge messages, termination of loops over attacker-controlled data, goroutines of the gRPC/HTTP servers themselves.")
+	prop("C15", []string{"R15a", "R15b", "R15c", "R15d", "R15e"},
+		structural+"Decided: (R15a) the kind -> key-prefix and kind -> directory tables are injective, prefix-free and inverted consistently by the path and loader code; (R15b) compressed reads are CAS-only; (R15c) the kind argument of every Cache call in package server is a constant or derived from the URL by the one parser; (R15d) every action-cache access is dominated by the mangling step with the request's own instance name and CAS keys are never mangled; TransformActionCacheKey is the identity exactly for the empty instance; (R15e) request hashes are validated before they become file names.",
+		"Not decided: collision resistance of SHA-256 (mangled keys), isolation as a statement over histories (follows from the key tables being injective).")
+	prop("C16", []string{"R16a", "R16b", "R16c", "R16d", "R12g"},
+		structural+"Decided: (R16a) SendAndClose with a success response is dominated by the Put result (nil, or io.EOF for already present); (R16b) committed_size is assigned only the four documented values; (R16c) the Put goroutine starts only for a first message with offset 0, a parsable name and a size within limits, and every protocol violation sends a real error to the result channel; (R16d) QueryWriteStatus reports complete with the full size exactly on presence; (R12g) the resource-name templates this code base writes are accepted by its own grammar.",
+		"Not decided: that any REAPI-conformant prefix/suffix parses (quantifies over strings; the regular expressions are not compared with the REAPI grammar), number of bytes actually received.")
+	prop("C17", []string{"R17a", "R17b", "R17c", "R17e", "R17f", "R17g"},
+		structural+"Decided: (R17a) in Reserve the hard-limit rejection dominates every eviction and counter store (refusal evicts nothing, stores nothing); (R17b) the compared quantity is currentSize + queuedEvictionsSize + requested size; (R17c) the backlog counter is increased on queueing and decreased by the same field after the file was removed (retry succeeds later); (R17e) the limit is active only when configured > 0 and 507 is produced nowhere else; (R17f) every file creation is dominated by a successful admission; (R17g) hits are returned without admission.",
+		"Not decided: HTTP 507 / RESOURCE_EXHAUSTED mapping in package server (error code translation is checked only as far as R01h), timing of the background remover.")
+	prop("C18", []string{"R18a", "R18b", "R18c", "R18d", "R12d"},
+		structural+"Decided: (R18a) Put rejects size > max_blob_size before reserving; (R18b) every ingress guard in package server is the strict comparison size > limit on the very value handed to Put (exactly-the-limit accepted, nothing stronger); (R18c) one configured value flows unchanged to the disk cache, the HTTP server, the gRPC server and GetCapabilities; (R18d/R12d) every backend lookup and every use of a backend-reported size is dominated by the max_proxy_blob_size comparison.",
+		"Not decided: that the logical size of compressed uploads equals the declared one (C01), client error codes.")
+	prop("C19", []string{"R19a", "R19b", "R19c", "R19d", "R19e", "R19f", "R19g"},
+		structural+"Decided: (R19a/b/c/d) every command-line flag is read with the accessor of its own type into the field whose YAML tag is the flag's name, defaults agree, every flag is read and every YAML field has a flag; (R19e) both front ends return a configuration only through the one validator; (R19g) both normalise the listener addresses alike; (R19f) for each class of invalid set-up named by the property the validator has an error exit reached exactly by that defect (class-sliced exploration of validateConfig).",
+		"Not decided: environment-variable handling inside urfave/cli, YAML parser behaviour, semantic equivalence of nested proxy configurations beyond field wiring.")
+	prop("C20", []string{"R20a", "R20b", "R20c", "R20d", "R12g", "R02d"},
+		structural+"Decided: (R20a) the header writer emits the published v2 layout (magic, frame size, logical size, compression byte, chunk size, count, offsets; little-endian; table at byte 29); (R20b) the reader consumes the same (type, width) sequence; (R20c) each chunk is one independent zstd frame and the offset table records the file offset before each; (R02d) readers honour whatever chunk size the header states; (R20d) file names follow the published layout per key space; (R12g) backend object and resource names are the published injective templates.",
+		"Not decided: that zstd frames produced by the libraries are standard-conformant, readability by an independent implementation (needs executing one).")
 }
